@@ -189,6 +189,12 @@ func checkC09(rep *Report, rng *Rng, tier string) {
 			ops = out
 		}
 		d := CfgDesc{Check: "C09", FileBacked: true, Post: "prefix"}
+		if i%4 == 2 {
+			// a before-write hook that itself appends to the store (persists another collection) before returning
+			// the item unchanged: every record must still go to the end of the file
+			d.CBSet = cbNestedWrite
+			d.ReopenDump = true
+		}
 		return d.RunCfg(), ops, d.String()
 	}, nil)
 	rep.Extra["note"] = "writes and truncates are also checked in every other history-based check (the monitor is part of the shared runner)"
